@@ -1,5 +1,6 @@
 import H264.Derived
 import H264.C20Prof
+import H264.SmallProofC13
 /-! # C13 — SPS-derived values (size, fps, level, profile, codec string) match the standard
 
 `pixelDimensions` mirrors `SeqParameterSet::pixel_dimensions` with every `checked_mul` / `checked_sub` of the Rust as
@@ -61,5 +62,12 @@ def sample1080 : Sps :=
     frameCropping := some ⟨0, 0, 0, 4⟩, vui := none }
 example : pixelDimensions sample1080 = .ok (1920, 1080) := by
   simp [pixelDimensions, sample1080, lumaWidth, lumaHeight, mulOf, cropUnitX, cropUnitY, hsubOf, vsubOf, U32]
+
+/-- **model = real code on a complete small domain, by proof**: a grid of 720 High-profile SPS (chroma_format_idc 0…3 and 4:4:4 with
+separate planes × frame / field coding × 1…2 × 1…2 macroblocks × every crop-offset pattern in {0,1}⁴ and one crop larger than
+the picture): the model parser followed by the model `pixelDimensions` gives what the real `from_bits` + `pixel_dimensions()`
+gave in this run's graph, the values and the error alike -/
+theorem model_dimensions_reproduce_code : SmallProof.dimsInputs.map SmallProof.dimsRow = Generated.dimsRows :=
+  SmallProof.dims_model_eq_code
 
 end C13
